@@ -647,6 +647,8 @@ def P(name, props, file, cls, model):
 KERNELS += [
     P("PlanEnvelope", ["C11", "C02"], "_gkdi.py", "GroupKeyEnvelope", "Gkdi.envelopePlan"),
     P("PlanKeyId", ["C11", "C06", "C05"], "_blob.py", "KeyIdentifier", "Gkdi.keyIdPlan"),
+    P("PlanFfcParams", ["C11", "C04", "C03"], "_gkdi.py", "FFCDHParameters", "Gkdi.ffcParamsPlan"),
+    P("PlanFfcKey", ["C11", "C04", "C03", "C05"], "_gkdi.py", "FFCDHKey", "Gkdi.ffcKeyPlan"),
 ]
 
 
@@ -688,11 +690,29 @@ def plan_steps(fn):
             raise Unsupported(f"length {ast.unparse(up)[:60]}")
         return up.id
 
+    def expr(node):
+        """offset arithmetic over decoded unsigned integers: literals, locals, + and *"""
+        if isinstance(node, ast.Constant) and isinstance(node.value, int) and not isinstance(node.value, bool) and node.value >= 0:
+            return f"(.lit {node.value})"
+        if isinstance(node, ast.Name) and node.id in ints:
+            return f'(.var "{node.id}")'
+        if isinstance(node, ast.BinOp) and isinstance(node.op, (ast.Add, ast.Mult)):
+            return f"(.{'add' if isinstance(node.op, ast.Add) else 'mul'} {expr(node.left)} {expr(node.right)})"
+        raise Unsupported(f"offset expression {ast.unparse(node)[:60]}")
+
     steps, ints = [], set()
     first = body[0]
     if not (isinstance(first, ast.Assign) and ast.unparse(first) == "view = memoryview(data)"):
         raise Unsupported(f"first statement {ast.unparse(first)[:60]}")
     for st in body[1:-1]:
+        if isinstance(st, ast.If) and isinstance(st.test, ast.Compare) and ast.unparse(st.test.left) == "len(view)":
+            # if len(view) < <expr>: raise ValueError(...)
+            t = st.test
+            if not (len(t.ops) == 1 and isinstance(t.ops[0], ast.Lt) and not st.orelse and len(st.body) == 1 and isinstance(st.body[0], ast.Raise)
+                    and isinstance(st.body[0].exc, ast.Call) and ast.unparse(st.body[0].exc.func) == "ValueError"):
+                raise Unsupported(f"length guard {ast.unparse(t)[:60]}")
+            steps.append(f".guardLen {expr(t.comparators[0])}")
+            continue
         if isinstance(st, ast.If):
             # if view[a:b].tobytes() != cls.magic: raise ValueError(...)
             t = st.test
@@ -703,6 +723,7 @@ def plan_steps(fn):
             a, b = const_slice(tobytes_of(t.left))
             steps.append(f".magic {a} {b}")
             continue
+
         if not (isinstance(st, ast.Assign) and len(st.targets) == 1 and isinstance(st.targets[0], ast.Name)):
             raise Unsupported(f"statement {ast.unparse(st)[:60]}")
         tgt, v = st.targets[0].id, st.value
@@ -717,7 +738,7 @@ def plan_steps(fn):
             elif isinstance(lo, ast.Name) and lo.id in ints:
                 steps.append(f'.skipLen "{lo.id}"')
             else:
-                raise Unsupported(f"advance by {ast.unparse(lo)[:60]}")
+                steps.append(f".skipE {expr(lo)}")
             continue
         if isinstance(v, ast.Call) and ast.unparse(v.func) == "int.from_bytes":
             kws = {k.arg: k.value for k in v.keywords}
@@ -741,15 +762,37 @@ def plan_steps(fn):
                 raise Unsupported(f"length {n} is not a decoded integer")
             steps.append(f'.text "{tgt}" "{n}"')
             continue
-        n = prefix_len(tobytes_of(v), False)
-        if n not in ints:
-            raise Unsupported(f"length {n} is not a decoded integer")
-        steps.append(f'.bytes "{tgt}" "{n}"')
+        sl = tobytes_of(v)
+        if isinstance(sl, ast.Subscript) and isinstance(sl.slice, ast.Slice) and sl.slice.lower is None and isinstance(sl.slice.upper, ast.Name):
+            n = prefix_len(sl, False)
+            if n not in ints:
+                raise Unsupported(f"length {n} is not a decoded integer")
+            steps.append(f'.bytes "{tgt}" "{n}"')
+        else:
+            # name = view[lo:hi].tobytes() with computed bounds
+            if not (isinstance(sl, ast.Subscript) and isinstance(sl.value, ast.Name) and sl.value.id == "view" and isinstance(sl.slice, ast.Slice)
+                    and sl.slice.step is None and sl.slice.upper is not None):
+                raise Unsupported(f"slice form {ast.unparse(sl)[:60]}")
+            lo = "(.lit 0)" if sl.slice.lower is None else expr(sl.slice.lower)
+            steps.append(f'.slice "{tgt}" {lo} {expr(sl.slice.upper)}')
     ret = body[-1]
     if not (isinstance(ret, ast.Return) and isinstance(ret.value, ast.Call) and isinstance(ret.value.func, ast.Name) and not ret.value.args
-            and all(k.arg and isinstance(k.value, ast.Name) for k in ret.value.keywords)):
-        raise Unsupported("unpack does not end in `return Cls(kw=local, ...)`")
-    table = [f'("{k.arg}", "{k.value.id}")' for k in ret.value.keywords]
+            and all(k.arg for k in ret.value.keywords)):
+        raise Unsupported("unpack does not end in `return Cls(kw=..., ...)`")
+    table = []
+    for k in ret.value.keywords:
+        v = k.value
+        if isinstance(v, ast.Name):
+            table.append(f'("{k.arg}", "{v.id}")')
+            continue
+        # kw=int.from_bytes(local, byteorder="big")
+        kws = {x.arg: x.value for x in v.keywords} if isinstance(v, ast.Call) else {}
+        if (isinstance(v, ast.Call) and ast.unparse(v.func) == "int.from_bytes" and len(v.args) == 1 and isinstance(v.args[0], ast.Name) and set(kws) == {"byteorder"}
+                and isinstance(kws["byteorder"], ast.Constant) and kws["byteorder"].value == "big"):
+            steps.append(f'.beInt "be:{v.args[0].id}" "{v.args[0].id}"')
+            table.append(f'("{k.arg}", "be:{v.args[0].id}")')
+            continue
+        raise Unsupported(f"constructor argument {ast.unparse(v)[:60]}")
     return steps, table, ret.value.func.id
 
 
